@@ -53,7 +53,9 @@ def plan(tier, seed):
                            "skip_feedforward_successions {False, True}",
                    "synthetic diagrams": "every DAG shape with (nodes, max edges) in " + str([(a, b) for a, b, _ in dd]) + " x every assignment of node "
                                          "ids (root = 0) x every non-empty target over the synthetic variables x {all expanded, one leaf a stub}: "
-                                         "successions_to_target(expand_diagram=False) on a real SuccessionDiagram object carrying that DAG",
+                                         "successions_to_target(expand_diagram=False) on a real SuccessionDiagram object carrying that DAG; and (<=5 nodes) the "
+                                         "diagram growing between two queries: a stub and everything reachable only through it is expanded with the real "
+                                         "_ensure_edge after a first query, then every target is queried again",
                    "prior diagram states": {n: f"fresh + every state reachable by <= {d} call(s) of the full alphabet" for n, _, _, d in us}},
         "rule": "every intervention reported successful: cumulative trap spaces nested and consistent, every override's reference LDOI "
                 "contains the step's motif, every attractor of the overridden network reachable from the previous trap space has the "
@@ -137,7 +139,7 @@ def check_state(net, spec, prefix, tmode, res, tier):
 
 
 def run_dag_unit(spec, res):
-    from ..ctldag import check_shape
+    from ..ctldag import check_shape, check_growth
     from ..dagdepth import dags
     k, me, sh, nsh = spec
     vio = []
@@ -145,6 +147,8 @@ def run_dag_unit(spec, res):
         if idx % nsh != sh:
             continue
         v = check_shape(k, es, res)
+        if v is None and k <= 5:
+            v = check_growth(k, es, res)
         res["states"] += 1
         if len(es) >= k:
             res["nontrivial"].add(("dag", es))
@@ -210,8 +214,9 @@ def _t(o):
 def replay(case):
     from biobalm.control import succession_control
     if "dag" in case:
-        from ..ctldag import check_shape
-        v = check_shape(case["dag"]["k"], tuple(tuple(e) for e in case["dag"]["edges"]), new_result())
+        from ..ctldag import check_shape, check_growth
+        es_ = tuple(tuple(e) for e in case["dag"]["edges"])
+        v = check_shape(case["dag"]["k"], es_, new_result()) or check_growth(case["dag"]["k"], es_, new_result())
         return [V("succession-ends-in-node-with-hot-descendant", case, v, site="dag")] if v else []
     net = U.resolve(case["net"])
     prefix = tuple(_t(o) for o in case["prefix"])
